@@ -110,6 +110,15 @@ def c06(tier):
         v.add_tlc(f"Executor model, unlimited budget, {wakes}", r, consts)
         if r.violation:
             v.spec_violation("Executor", r)
+    # mechanism behind F-C06-2 (cooperative budget + deferred wake-ups): the pinned design has a TLC counterexample, the
+    # "run until idle" sketch of a repair satisfies Quiescent
+    cc = "NTasks = 2 B = 2 MaxWork = 5" if tier == "quick" else "NTasks = 3 B = 3 MaxWork = 7"
+    r = tlc("Coop", f"CONSTANTS {cc} RunUntilIdle = TRUE\nSPECIFICATION Spec\nINVARIANT Quiescent\nCONSTRAINT Bounded\nCHECK_DEADLOCK FALSE\n", wd)
+    v.add_tlc("Coop (budgeted polls, deferred wakers), main future yields until idle: Quiescent", r, cc + " RunUntilIdle = TRUE")
+    if r.violation:
+        v.spec_violation("Coop", r)
+    r = tlc("Coop", f"CONSTANTS {cc} RunUntilIdle = FALSE\nSPECIFICATION Spec\nINVARIANT Quiescent\nCONSTRAINT Bounded\nCHECK_DEADLOCK FALSE\n", wd)
+    v.cov["coop_budget_counterexample_of_pinned_design"] = bool(r.violation)
     sizes = [2, 10, 60, 61, 62, 100] if tier == "quick" else [2, 10, 60, 61, 62, 63, 100, 500, 2000]
     for n in sizes:
         family(v, wd, "C06", f"chain{n}", n, "ProgsChain", 6, mc=(n <= 10), what=f"wake chain of {n} tasks inside one instant", module="Gen_AsyncFam")
